@@ -138,3 +138,13 @@ def null_store_nodes(g, field_text):
 
 def is_nullish(e):
     return cx.is_null(e)
+
+
+def is_increment(stmt_ast, lvalue, by=1):
+    """the statement adds `by` to the lvalue, in any spelling: x++, ++x, x += 1, x = x + 1, x = 1 + x (by=-1: the decrements)"""
+    from .cfg import stmt_text
+    t = stmt_text(stmt_ast).replace(' ', '')
+    lv = lvalue.replace(' ', '')
+    if by == 1:
+        return t in (lv + '++', '++' + lv, lv + '+=1', '%s=%s+1' % (lv, lv), '%s=1+%s' % (lv, lv))
+    return t in (lv + '--', '--' + lv, lv + '-=1', '%s=%s-1' % (lv, lv))
